@@ -125,8 +125,7 @@ def _tealcheck(spec):
         except Exception:
             continue
         out["n"] += 1
-        pr = tealcheck.validate(teal, spec["version"], spec["mode"])
-        pr = [p for p in pr if "stack" in p or "applied to" in p or "pops" in p or "retsub" in p or "below" in p or "heights" in p]
+        pr = tealcheck.discipline(teal, spec["version"], spec["mode"])
         if pr:
             rec = {"options": opt, "problems": pr[:4], "teal": teal}
             # the known optimiser defect (values of the other stores stay on the stack) also shows up statically
